@@ -91,6 +91,7 @@ package kms
 //@   opt allow-go
 //@   requires resp != nil && resp.KeyId != nil && (forall a int :: 0 <= a && a < len(clients) ==> clients[a].KMS != nil)
 //@   loop 1 invariant [C17:every-region-is-served-by-its-own-client] 0 <= iter && iter <= len(clients) && results != nil && !chclosed(results) && (forall j int :: 0 <= j && j < iter && clients[j].ARN != *resp.KeyId ==> spawned_encryptAllRegions_1(clients[j]) == old(spawned_encryptAllRegions_1(clients[j])) + 1) && (forall j int :: iter <= j && j < len(clients) ==> spawned_encryptAllRegions_1(clients[j]) == old(spawned_encryptAllRegions_1(clients[j]))) && (forall k int :: 0 <= k && k < chsent(results) ==> chlog(results, k).EncryptedKEK == resp.CiphertextBlob && chlog(results, k).ARN == *resp.KeyId)
+//@   ensures [C17:returns-a-channel-nobody-has-read-from] result != nil && chrecvd(result) == 0
 //@   ensures [C17:one-goroutine-per-other-region-on-that-region-s-client] forall j int :: 0 <= j && j < len(clients) && clients[j].ARN != *resp.KeyId ==> spawned_encryptAllRegions_1(clients[j]) == old(spawned_encryptAllRegions_1(clients[j])) + 1
 
 // the two steps of wrapping are reached through package variables (so that tests can replace them): what EncryptKey
@@ -104,7 +105,7 @@ package kms
 //@ funcspec regionEncryptor
 //@   names ctx, resp, clients
 //@   modifies spawned_encryptAllRegions_1, chsent, chclosed
-//@   ensures result != nil
+//@   ensures result != nil && chrecvd(result) == 0
 //@ funcvar encryptAllRegionsFunc regionEncryptor
 
 //@ func (*AWSKMS).EncryptKey
@@ -113,10 +114,11 @@ package kms
 //@   safety C17
 //@   opt no-frame
 //@   requires m != nil && m.Crypto != nil
-//@   loop 1 invariant [C17:every-entry-received-is-kept] true
+//@   loop 1 invariant [C17:every-entry-received-is-kept] len(kekEn.KMSKEKs) == chrecvd(ret(encryptAllRegionsFunc, 1, 0)) && (forall k int :: 0 <= k && k < len(kekEn.KMSKEKs) ==> kekEn.KMSKEKs[k].Region == chlog(ret(encryptAllRegionsFunc, 1, 0), k).Region && kekEn.KMSKEKs[k].ARN == chlog(ret(encryptAllRegionsFunc, 1, 0), k).ARN && kekEn.KMSKEKs[k].EncryptedKEK == chlog(ret(encryptAllRegionsFunc, 1, 0), k).EncryptedKEK)
 //@   ensures [C17,C10:data-key-plaintext-wiped-on-every-return] retis(generateDataKeyFunc, 1, 1, nil) ==> (forall i int :: 0 <= i && i < len(ret(generateDataKeyFunc, 1, 0).Plaintext) ==> ret(generateDataKeyFunc, 1, 0).Plaintext[i] == 0)
 //@   ensures [C17:key-sealed-under-the-generated-data-key] retis(generateDataKeyFunc, 1, 1, nil) ==> ncalls(Encrypt) == 1 && arg(Encrypt, 1, data) == keyBytes && arg(Encrypt, 1, key) == ret(generateDataKeyFunc, 1, 0).Plaintext
 //@   ensures [C17:wrap-fails-only-if-no-region-generates-a-key-or-sealing-fails] err != nil ==> !retis(generateDataKeyFunc, 1, 1, nil) || !retis(Encrypt, 1, 1, nil) || !retis(Marshal, 1, 1, nil)
 //@ func (*AWSKMS).EncryptKey
+//@   ensures [C17:envelope-carries-every-entry-received-from-the-regions] retis(Encrypt, 1, 1, nil) ==> len(dyn(arg(Marshal, 1, v), envelope).KMSKEKs) == chrecvd(ret(encryptAllRegionsFunc, 1, 0)) && (forall k int :: 0 <= k && k < len(dyn(arg(Marshal, 1, v), envelope).KMSKEKs) ==> dyn(arg(Marshal, 1, v), envelope).KMSKEKs[k].Region == chlog(ret(encryptAllRegionsFunc, 1, 0), k).Region && dyn(arg(Marshal, 1, v), envelope).KMSKEKs[k].EncryptedKEK == chlog(ret(encryptAllRegionsFunc, 1, 0), k).EncryptedKEK)
 //@   ensures [C17:envelope-carries-the-sealed-key] retis(Encrypt, 1, 1, nil) ==> ncalls(Marshal) == 1 && istype(arg(Marshal, 1, v), envelope) && dyn(arg(Marshal, 1, v), envelope).EncryptedKey == ret(Encrypt, 1, 0)
 
